@@ -21,6 +21,7 @@ def check_copy(prop, rec, orig, copy, what, witness):
     so, sc = S.shadow(orig), S.shadow(copy)
     w = dict(witness)
     w["tree"] = S.to_json(so)
+    w["ids_preorder"] = _ids(orig)
 
     def bad(key, msg):
         w2 = dict(w)
@@ -127,7 +128,7 @@ def attach_clone(prop="C13"):
         rec.ev()
         rec.arm("clone_from_root")
         sh = S.shadow(root)
-        w = {"node_path": "".join(path or []), "tree": S.to_json(sh)}
+        w = {"node_path": "".join(path or []), "tree": S.to_json(sh), "ids_preorder": _ids(root)}
         try:
             new_root = S.root_of(res)
         except Exception:
